@@ -100,7 +100,7 @@ type trigger struct {
 
 func TestC07Model(t *testing.T) {
 	vstat.Rule("C07", rule)
-	vstat.Assume("threshold t with 2t>n as every cluster has (so at most one root group can reach t); exempt duties use at most 3 slots so the per-share cap of 10 is never reached")
+	vstat.Assume("threshold t with 2t>n as every cluster has (so at most one root group can reach t); the per-share cap of 10 entries for never-expiring duties is modelled (the 11th evicts that share's oldest partial only)")
 	rapid.Check(t, func(rt *rapid.T) {
 		rapid.SyncTest(rt, func(rt *rapid.T) { runCase(rt) })
 	})
@@ -143,6 +143,20 @@ func runCase(rt *rapid.T) {
 	kind := kinds[rapid.IntRange(0, len(kinds)-1).Draw(rt, "kind")]
 	nSlots := rapid.IntRange(1, 2).Draw(rt, "slots")
 	nOps := rapid.IntRange(1, 40).Draw(rt, "nOps")
+	// never-expiring duties are capped at maxExempt stored entries per (share, validator, type):
+	// storing an 11th evicts that share's oldest entry (and only that share's partial).
+	const maxExempt = 10
+	type exemptKey struct {
+		share  int
+		pubkey core.PubKey
+	}
+	exemptLists := map[exemptKey][]mkey{}
+	capMode := kind.exempt && rapid.Bool().Draw(rt, "capMode")
+	if capMode {
+		nSlots = rapid.IntRange(11, 14).Draw(rt, "capSlots")
+		nOps = rapid.IntRange(20, 90).Draw(rt, "capOps")
+	}
+	evictions := 0
 	for op := 0; op < nOps; op++ {
 		slot := uint64(rapid.IntRange(1, nSlots).Draw(rt, "slot"))
 		duty := core.Duty{Slot: slot, Type: kind.typ}
@@ -159,6 +173,11 @@ func runCase(rt *rapid.T) {
 		}
 		internal := rapid.Bool().Draw(rt, "internal")
 		nVals := rapid.IntRange(1, 3).Draw(rt, "nVals")
+		focusShare := 0
+		if capMode && rapid.IntRange(0, 2).Draw(rt, "focus") != 0 {
+			nVals = 1
+			focusShare = 1 // one share walks through many slots
+		}
 		set := core.ParSignedDataSet{}
 		type exp struct {
 			key     mkey
@@ -172,7 +191,13 @@ func runCase(rt *rapid.T) {
 		for _, vi := range perm[:nVals] {
 			pubkey := pubkeys[vi]
 			share := rapid.IntRange(1, n).Draw(rt, "share")
+			if focusShare != 0 {
+				share = focusShare
+			}
 			variant := rapid.IntRange(1, 3).Draw(rt, "variant")
+			if capMode {
+				variant = 1
+			}
 			if variant == 3 && rapid.Bool().Draw(rt, "fewerVariants") {
 				variant = 1
 			}
@@ -265,6 +290,27 @@ func runCase(rt *rapid.T) {
 				if e.fires {
 					wantFire[e.key.pubkey] = e.group
 				}
+				if kind.exempt {
+					ek := exemptKey{e.entry.share, e.key.pubkey}
+					exemptLists[ek] = append(exemptLists[ek], e.key)
+					if len(exemptLists[ek]) > maxExempt {
+						old := exemptLists[ek][0]
+						exemptLists[ek] = exemptLists[ek][1:]
+						var keep []mentry
+						for _, x := range model[old] {
+							if x.share != e.entry.share {
+								keep = append(keep, x)
+							}
+						}
+						if len(keep) == 0 {
+							delete(model, old)
+						} else {
+							model[old] = keep
+						}
+						delete(fired, old) // the store forgot that share for this duty: completing the group again is a fresh completion
+						evictions++
+					}
+				}
 			}
 		}
 		if wantErr != (err != nil) {
@@ -330,7 +376,7 @@ func runCase(rt *rapid.T) {
 
 	nontrivial := anyTrigger && (minority || rejectedInBatch || dup || moreThanT)
 	vstat.Case(fmt.Sprintf("%d/%d/%v/%s", n, thr, kind.typ, strings.Join(trace, ";")), nontrivial,
-		cls("trigger", anyTrigger), cls("minority_root", minority), cls("rejected_in_batch", rejectedInBatch), cls("duplicate", dup), cls("more_than_t", moreThanT), "type="+kind.typ.String())
+		cls("trigger", anyTrigger), cls("minority_root", minority), cls("rejected_in_batch", rejectedInBatch), cls("duplicate", dup), cls("more_than_t", moreThanT), cls("exempt_cap_eviction", evictions > 0), "type="+kind.typ.String())
 	if nontrivial && minority && rejectedInBatch && vstat.WantSample("minority+rejected") {
 		vstat.Sample("minority+rejected", map[string]any{"n": n, "t": thr, "duty_type": kind.typ.String(), "ops": trace})
 	} else if nontrivial && vstat.WantSample("nontrivial") {
